@@ -762,3 +762,147 @@ def caller_data(tier="quick", seed=0, only=None):
 
 
 FORMATS = ["coo", "csr", "csc"]
+
+
+@native("native.solve.prefix", ["C08"])
+def solve_prefix(tier="quick", seed=0, only=None):
+    """bounded: for every iteration budget k <= K and every deadline position j <= Jmax in the sequence of clock reads
+    (virtual clock), the limited run is a prefix of the unlimited one and returns its last accepted iterate"""
+    use_repo()
+    from pygradflow.status import SolverStatus
+
+    failures, cases = [], 0
+    S = scenarios()
+    names = ["qp_eq_box", "nlp_mixed"] if tier == "quick" else list(S)
+    K = 8 if tier == "quick" else 40
+    J = 25 if tier == "quick" else 200
+    for name in names:
+        mk, x0, y0 = S[name]
+        for ctrl in (["DistanceRatio", "Exact"] if tier == "quick" else CONTROLLERS):
+            kw = dict(step_control_type=enum("StepControlType", ctrl))
+            ref = run(mk(), mk_params(iteration_limit=K + 50, **kw), x0, y0)
+
+            def state_before(rec, k):
+                """internal (x, y) the reference run had before its k-th trial"""
+                if k < len(rec.trials):
+                    itx = rec.trials[k]["start"]
+                else:
+                    last = rec.trials[-1]
+                    itx = last["res"].iterate if (last["accepted"] and rec.result is not None and np.array_equal(rec.solver.transform.restore_sol(last["res"].iterate.x, last["res"].iterate.y, last["res"].iterate.bounds_dual)[0], rec.result.x)) else last["start"]
+                return itx
+
+            for k in range(0, min(K, len(ref.trials)) + 1):
+                inp = dict(scenario=name, controller=ctrl, iteration_limit=k)
+                if only is not None and only != inp:
+                    continue
+                lim = run(mk(), mk_params(iteration_limit=k, **kw), x0, y0)
+                cases += 1
+                if lim.exc is not None or lim.result is None:
+                    failures.append(dict(label="C08:limited_run_raises", input=inp, observed=repr(lim.exc)))
+                    continue
+                if len(lim.trials) != k or lim.result.iterations != k or lim.result.status != SolverStatus.IterationLimit:
+                    if not (len(ref.trials) < k):
+                        failures.append(dict(label="C08:limit_k=>exactly_k_trials_and_IterationLimit", input=inp, observed=(len(lim.trials), lim.result.iterations, str(lim.result.status))))
+                        continue
+                for q in range(min(k, len(lim.trials))):
+                    a, b = ref.trials[q], lim.trials[q]
+                    if a["dt"] != b["dt"] or a["rho"] != b["rho"] or a["accepted"] != b["accepted"] or a["res"].iterate.x.tobytes() != b["res"].iterate.x.tobytes():
+                        failures.append(dict(label="C08:trial_steps_identical_up_to_the_limit", input=inp, observed=q))
+                        break
+                exp = state_before(ref, k) if k < len(ref.trials) else None
+                if exp is not None:
+                    ex = ref.solver.transform.restore_sol(exp.x, exp.y, exp.bounds_dual)
+                    if ex[0].tobytes() != lim.result.x.tobytes() or ex[1].tobytes() != lim.result.y.tobytes():
+                        failures.append(dict(label="C08:returns_the_last_iterate_accepted_before_the_stop", input=inp, observed=(ex[0].tolist(), lim.result.x.tolist())))
+            # deadline positions
+            base = run(mk(), mk_params(iteration_limit=K + 50, time_limit=1e6, **kw), x0, y0, clock=10**9)
+            for j in range(1, J + 1):
+                inp = dict(scenario=name, controller=ctrl, deadline_after_clock_read=j)
+                if only is not None and only != inp:
+                    continue
+                lim = run(mk(), mk_params(iteration_limit=K + 50, time_limit=1e6, **kw), x0, y0, clock=j)
+                cases += 1
+                if lim.exc is not None or lim.result is None:
+                    failures.append(dict(label="C08:deadline_run_raises", input=inp, observed=repr(lim.exc)))
+                    continue
+                if lim.result.status not in (SolverStatus.TimeLimit,) and len(lim.trials) < len(base.trials):
+                    failures.append(dict(label="C08:early_stop_has_status_TimeLimit", input=inp, observed=str(lim.result.status)))
+                nacc = 0
+                for q in range(len(lim.trials)):
+                    if q >= len(base.trials):
+                        break
+                    a, b = base.trials[q], lim.trials[q]
+                    same = a["dt"] == b["dt"] and a["rho"] == b["rho"] and a["start"].x.tobytes() == b["start"].x.tobytes()
+                    if not same:
+                        failures.append(dict(label="C08:deadline:trial_steps_start_identically", input=inp, observed=q))
+                        break
+                if lim.result.status == SolverStatus.TimeLimit and lim.trials:
+                    # the returned point is an iterate the unlimited run had (never a partial / rejected trial point)
+                    cand = [t["start"] for t in base.trials] + [base.trials[-1]["res"].iterate]
+                    xs = [base.solver.transform.restore_sol(c.x, c.y, c.bounds_dual)[0].tobytes() for c in cand]
+                    if lim.result.x.tobytes() not in xs:
+                        failures.append(dict(label="C08:deadline:returned_point_is_an_accepted_iterate_of_the_unlimited_run", input=inp, observed=lim.result.x.tolist()))
+                if lim.result.iterations != len(lim.trials):
+                    failures.append(dict(label="C08:deadline:counters_consistent", input=inp, observed=(lim.result.iterations, len(lim.trials))))
+    seen, uniq = set(), []
+    for f in failures:
+        if f["label"] not in seen:
+            seen.add(f["label"])
+            uniq.append(f)
+    return result(cases, uniq, f"scenarios {names}; budgets k<={K}; deadline at clock read j<={J}")
+
+
+@native("native.solve.repeat", ["C10"])
+def solve_repeat(tier="quick", seed=0, only=None):
+    """bounded: the same Solver object solved repeatedly, and fresh solvers after other solves, give byte-identical
+    trajectories (every penalty policy x controller on the scenario list)"""
+    use_repo()
+    failures, cases = [], 0
+    S = scenarios()
+    names = ["qp_eq_box", "nlp_mixed"] if tier == "quick" else list(S)
+    for name in names:
+        mk, x0, y0 = S[name]
+        for pol in POLICIES:
+            for ctrl in (["DistanceRatio"] if tier == "quick" else ["DistanceRatio", "Exact", "ResiduumRatio"]):
+                inp = dict(scenario=name, policy=pol, controller=ctrl)
+                if only is not None and only != inp:
+                    continue
+                params = mk_params(penalty_update=enum("PenaltyUpdate", pol), step_control_type=enum("StepControlType", ctrl), iteration_limit=40, rho=1e-2)
+                first = run(mk(), params, x0, y0)
+                # second solve on the SAME solver object
+                rec2 = Record()
+                solver = first.solver
+                from pygradflow.callbacks import CallbackType
+
+                orig_cs = solver._compute_step.__func__ if hasattr(solver._compute_step, "__func__") else None
+                first_trials = list(first.trials)
+                first.trials.clear()
+                try:
+                    res2 = solver.solve(x0, y0)
+                    exc2 = None
+                except Exception as e:  # noqa
+                    res2, exc2 = None, e
+                second_trials = list(first.trials)
+                cases += 1
+                if (exc2 is None) != (first.exc is None):
+                    failures.append(dict(label=f"C10:second_solve_on_same_solver_differs(raise):{pol}", input=inp, observed=repr(exc2)))
+                    continue
+                if len(second_trials) != len(first_trials):
+                    failures.append(dict(label=f"C10:second_solve_on_same_solver_differs:{pol}", input=inp, observed=f"{len(first_trials)} vs {len(second_trials)} trials"))
+                    continue
+                for q, (a, b) in enumerate(zip(first_trials, second_trials)):
+                    if a["dt"] != b["dt"] or a["rho"] != b["rho"] or a["accepted"] != b["accepted"] or a["res"].iterate.x.tobytes() != b["res"].iterate.x.tobytes():
+                        failures.append(dict(label=f"C10:second_solve_on_same_solver_differs:{pol}", input=inp, observed=f"trial {q}"))
+                        break
+                # a fresh solver after other solves
+                fresh = run(mk(), params, x0, y0)
+                first.trials[:] = first_trials
+                d = _same_trajectory(first, fresh)
+                if d:
+                    failures.append(dict(label=f"C10:fresh_solver_after_other_solves_differs:{pol}", input=inp, observed=d))
+    seen, uniq = set(), []
+    for f in failures:
+        if f["label"] not in seen:
+            seen.add(f["label"])
+            uniq.append(f)
+    return result(cases, uniq, f"scenarios {names} x 6 penalty policies x controllers; 40 iterations")
